@@ -92,6 +92,10 @@ def verdicts(dump_path, mout):
                 cur["s2_unsupported"] = ml
             elif not ml.startswith("ok2 "):
                 cur["bad"].append(ml)
+        elif dl.startswith("ENDY "):
+            cur["symy"] = ml
+            if not ml.startswith("okY "):
+                cur["bad"].append(ml)
         elif dl == "END before":
             cur["pre"] = ml
             if not ml.startswith("pre "):
@@ -141,6 +145,8 @@ def judge(v):
             return "the topology loaded but the later stage dumps are incomplete: " + ",".join(sorted(s2))
         if "rm_before" not in s2:
             return "later stage dumps without rm_before: " + ",".join(sorted(s2))
+        if v["loaded"] and not v.get("symy"):
+            return "the topology loaded but the symmetric_subtree record (Y lines) is missing"
     if PRE_VIOLATION_IS_PROBLEM and v["pre"] is not None and v["pre"] != "pre ok":
         return "the input of the stage violates the precondition PreSets of the C01_setstage theorems: " + v["pre"]
     return None
@@ -211,9 +217,23 @@ def run_engine(tier, seed, sizes=None):
                               ("numa", lambda x: x > 1)):
                 if key in f and cond(int(f[key])):
                     stats["stage2.%s.%s" % (nm, key)] = stats.get("stage2.%s.%s" % (nm, key), 0) + 1
-            for key in ("typed", "alive", "exact"):
+            for key in ("typed", "alive", "exact", "dumphyp", "dumpclauses", "osunique", "setq", "tight", "setw"):
                 if key in f and int(f[key]) == 0:
                     stats["stage2.%s.not_%s" % (nm, key)] = stats.get("stage2.%s.not_%s" % (nm, key), 0) + 1
+        sy = v.get("symy")
+        if sy and sy.startswith("okY n="):
+            f = dict(x.split("=") for x in sy.split()[1:])
+            stats["symmetric.compared"] = stats.get("symmetric.compared", 0) + 1
+            stats["symmetric.objects"] = stats.get("symmetric.objects", 0) + int(f["n"])
+            if int(f["asym"]):
+                stats["symmetric.some_asymmetric"] = stats.get("symmetric.some_asymmetric", 0) + 1
+                stats["symmetric.asymmetric_objects"] = stats.get("symmetric.asymmetric_objects", 0) + int(f["asym"])
+            if int(f["multi"]):
+                stats["symmetric.walked"] = stats.get("symmetric.walked", 0) + 1
+        elif sy:
+            stats["symmetric." + sy.split()[1]] = stats.get("symmetric." + sy.split()[1], 0) + 1
+        if v["loaded"] and s2 and "final" in s2 and not sy:
+            stats["symmetric.missing"] = stats.get("symmetric.missing", 0) + 1
         if v["pre"]:
             stats["stage_ran"] += 1
             k = "pre_ok" if v["pre"] == "pre ok" else "pre_violated"
